@@ -1188,7 +1188,7 @@ func main() {
 		r.Require("tag_order_trials", int64(nto*3/4))
 	}
 	if focus == "C06" {
-		nt := r.N(24, 360)
+		nt := r.N(36, 360)
 		vh.Parallel(nt, 12, func(i int) { tickSequence(r, i) })
 		r.Require("tick_sequence_trials", int64(nt*3/4))
 		ne := r.N(16, 160)
